@@ -39,6 +39,8 @@ def construct(kind, n, d):
     S = "SENTINELPAYLOAD"
     if kind == "para":
         return ["P%d plain" % n]
+    if kind == "heading":
+        return ["#" * (1 + n % 2) + " Heading %d" % n]
     if kind == "html-block":
         return ["<div>%s%d</div>" % (S, n)]
     if kind == "two-html-blocks":
@@ -169,7 +171,7 @@ def check(doc, warn, reads, kinds, raw_enabled, file_ins):
 SUPPRESS = [[], ["myst"], ["myst.*", "docutils"]]
 
 
-def make(eng, k, pool, with_suppress=False):
+def make(eng, k, pool, with_suppress=False, with_zero=False):
     setup()
     c = CR.Choice(eng, width=31)
     state = {}
@@ -181,6 +183,9 @@ def make(eng, k, pool, with_suppress=False):
         raw_enabled = bool(c.choose(2))
         file_ins = bool(c.choose(2))
         sup = SUPPRESS[c.choose(len(SUPPRESS))] if with_suppress else []
+        if with_zero and c.choose(2):
+            # the settings may be spelled 0 instead of False (settings_overrides, config files with integer values)
+            raw_enabled, file_ins = (raw_enabled or 0), (file_ins or 0)
         state.update(kinds=kinds, raw_enabled=raw_enabled, file_ins=file_ins, suppress=sup)
         try:
             doc, warn, reads, text = run_doc(kinds, raw_enabled, file_ins, suppress=sup)
@@ -203,9 +208,9 @@ def make(eng, k, pool, with_suppress=False):
 def families(tier, seed):
     q = tier == "quick"
     F = []
-    F.append(Family("single", make, "one construct from %r + %r x 4 setting combinations x myst_suppress_warnings in %r (refusals must not depend on warning suppression)" % (RAW, FILES, SUPPRESS), args=dict(k=1, pool=RAW + FILES + ["para"], with_suppress=True), nontrivial="refused", max_forks=100000))
-    F.append(Family("pairs-raw", make, "two constructs from the raw carriers x 4 settings (adjacent raw nodes)", args=dict(k=2, pool=RAW + ["para"]), nontrivial="refused", max_forks=100000))
-    F.append(Family("pairs-files", make, "two constructs from the file readers x 4 settings", args=dict(k=2, pool=FILES + ["para"]), nontrivial="refused", max_forks=100000, required=not q))
+    F.append(Family("single", make, "one construct from %r + %r x 4 setting combinations x myst_suppress_warnings in %r (refusals must not depend on warning suppression)" % (RAW, FILES, SUPPRESS), args=dict(k=1, pool=RAW + FILES + ["para"], with_suppress=True, with_zero=True), nontrivial="refused", max_forks=100000))
+    F.append(Family("pairs-raw", make, "two constructs from the raw carriers, a paragraph or a heading (raw content before / after / between sections) x 4 settings", args=dict(k=2, pool=RAW + ["para", "heading"]), nontrivial="refused", max_forks=100000))
+    F.append(Family("pairs-files", make, "two constructs from the file readers x 4 settings x the disabled value spelled False or 0", args=dict(k=2, pool=FILES + ["para"], with_zero=True), nontrivial="refused", max_forks=100000, required=not q))
     if not q:
         F.append(Family("triples", make, "three constructs from a mixed pool", args=dict(k=3, pool=["html-block", "html-inline", "hardbreak", "raw-role", "include", "include-std", "csv-file", "para"]),
                         nontrivial="refused", max_forks=400000, required=False))
